@@ -57,6 +57,8 @@ def placements(draw):
         rot = {"axis": ax, "angle": draw(st.floats(0.2, math.pi - 0.2)) * draw(st.sampled_from([-1.0, 1.0])),
                "aligned": False}
     rot["o"] = [draw(st.floats(-10.0, 10.0)) for _ in range(3)]
+    # length given to arguments that only carry a direction (normals, rotation axes): 0.33 .. 0.85 or 1.18 .. 3
+    rot["nlen"] = 3.0 ** (draw(st.floats(0.15, 1.0)) * draw(st.sampled_from([1.0, -1.0])))
     return rot
 
 
@@ -115,6 +117,12 @@ def settle_far(case: dict, far_place, far_post) -> dict:
 
 def far_ratio(case) -> float:
     return max(case["place"].get("far", 0.0), (case.get("post") or {}).get("far", 0.0))
+
+
+def dlen(place) -> float:
+    """callers hand over normals and axes of any length (an axis vector between two points, 2 * e_z, ...): direction
+    arguments are multiplied by this factor, the ground truth keeps unit vectors"""
+    return float(place.get("nlen", 1.0))
 
 
 def frame(place) -> np.ndarray:
@@ -363,7 +371,7 @@ def make_sketch(p: dict, place):
     t = SketchTruth()
     t.size = r
     c = W(M, [0, 0, 0])
-    n = D(M, Z)
+    n = D(M, Z) * dlen(place)  # only handed to constructors here
     tol = 1e-6 * r + 5e-8
 
     def rim_circle(radius):
@@ -727,7 +735,7 @@ def build_round(p: dict, place) -> Spec:
         # arc centre on +x; rotating about +-y by +-theta moves the start disk along +z (its normal)
         ac = W(M, [bend, 0, 0])
         axis = D(M, [0, sgn, 0])
-        shape = cb.Elbow(c1, rp, n, p["sweep"], ac, axis, r2)
+        shape = cb.Elbow(c1, rp, n * dlen(place), p["sweep"], ac, axis * dlen(place), r2)
         R = rm.m_rotate(p["sweep"], axis, ac)
         c2 = rm.apply(R, c1)
         n2 = rm.apply_dir(R, n)
@@ -760,7 +768,7 @@ def build_round(p: dict, place) -> Spec:
             mid = (pts[2] + pts[3]) / 2 + np.array([0.0, 0.15 * h, 0.0])
             edges[2] = cb.Arc(W(M, mid))
         face = cb.Face([W(M, q) for q in pts], edges)
-        shape = cb.RevolvedRing(c1, W(M, [1.0, 0, 0]), face, k)
+        shape = cb.RevolvedRing(c1, W(M, [dlen(place), 0, 0]), face, k)
         ax = D(M, X)
         s.n_blocks, s.n_vertices = k, 4 * k
         s.circles = [Circle(W(M, [q[0], 0, 0]), ax, q[1], k, 2 * math.pi / k) for q in pts]
@@ -768,7 +776,7 @@ def build_round(p: dict, place) -> Spec:
         ex["axis"] = (c1, ax)
         ex["outer_pts"] = [W(M, pts[2]), W(M, pts[3])]
     elif cls == "Hemisphere":
-        shape = cb.Hemisphere(c1, rp, n)
+        shape = cb.Hemisphere(c1, rp, n * dlen(place))
         s.n_blocks, s.n_vertices = 16, 35
         ex["sphere"] = (c1, r)
     else:  # pragma: no cover
@@ -901,7 +909,7 @@ def sweep_shape(sketch, sp: dict, q: dict, place):
         e = D(M, polar(1.0, q["psi"]))
         origin = c + e * q["bend"] * sketch_extent(sp)
         axis = np.cross(n, e)  # a positive angle moves the sketch along its normal
-        return (cb.RevolvedShape(sketch, q["angle"], axis, origin),
+        return (cb.RevolvedShape(sketch, q["angle"], axis * dlen(place), origin),
                 [np.eye(4), rm.m_rotate(q["angle"], axis, origin)], [1.0, 1.0])
     v = D(M, [q["lean"][0], q["lean"][1], 1.0]) * q["h"] * r
     k = q["scale"]
@@ -976,6 +984,23 @@ def stack_maps(sp: dict, q: dict, place) -> List[np.ndarray]:
     return out
 
 
+def stack_mid_map(sp: dict, q: dict, place):
+    """world map taking a point of a tier's start sketch to the control point of its curved side edge (None when the
+    side edges are straight); tier k uses maps[k] @ this map applied to the base sketch"""
+    M = frame(place)
+    n = D(M, Z)
+    c = W(M, sketch_origin(sp))
+    r = sp["r"]
+    k = q["repeats"]
+    if q["how"] == "revolved":
+        e = D(M, polar(1.0, q["psi"]))
+        origin = c + e * q["bend"] * sketch_extent(sp)
+        return rm.m_rotate(q["angle"] / k / 2, np.cross(n, e), origin)
+    if q["how"] == "transformed" and q["mid"]:
+        return rm.m_rotate(q["twist"] / 2, n, c) @ rm.m_translate(n * q["h"] * r / 2)
+    return None
+
+
 def build_stack(sp: dict, q: dict, place) -> Spec:
     sketch, truth = make_sketch(sp, place)
     M = frame(place)
@@ -991,11 +1016,11 @@ def build_stack(sp: dict, q: dict, place) -> Spec:
     elif how == "revolved":
         e = D(M, polar(1.0, q["psi"]))
         origin = c + e * q["bend"] * sketch_extent(sp)
-        stack = cb.RevolvedStack(sketch, q["angle"], np.cross(n, e), origin, k)
+        stack = cb.RevolvedStack(sketch, q["angle"], np.cross(n, e) * dlen(place), origin, k)
     else:
         v = n * q["h"] * r
-        end = [cb.Translation(v), cb.Rotation(n, q["twist"], c)]
-        mid = [cb.Translation(v / 2), cb.Rotation(n, q["twist"] / 2, c)] if q["mid"] else None
+        end = [cb.Translation(v), cb.Rotation(n * dlen(place), q["twist"], c)]
+        mid = [cb.Translation(v / 2), cb.Rotation(n * dlen(place), q["twist"] / 2, c)] if q["mid"] else None
         stack = cb.TransformedStack(sketch, end, k, mid)
     maps = stack_maps(sp, q, place)
     s = Spec("stack/" + sp["kind"] + "/" + how)
